@@ -73,6 +73,32 @@ type regReader interface {
 	SCC() byte
 }
 
+// timingRegs reads the registers of a timing wavefront straight from the
+// compute unit's register files (wavefront.RegAccessor), not through
+// Wavefront.ReadOperand: the observer must not go through (and thereby disturb
+// or be fooled by) any state the operand path of the wavefront keeps.
+type timingRegs struct{ wf *wavefront.Wavefront }
+
+func (t timingRegs) ReadOperand(op *insts.Operand, lane int) uint64 {
+	if op.OperandType != insts.RegOperand || op.Register == nil || t.wf.RegAccessor == nil {
+		return t.wf.ReadOperand(op, lane)
+	}
+	off := t.wf.SRegOffset
+	if op.Register.IsVReg() {
+		off = t.wf.VRegOffset
+	}
+	buf := t.wf.RegAccessor.ReadReg(op.Register, op.RegCount, lane, off)
+	if len(buf) < 8 {
+		padded := make([]byte, 8)
+		copy(padded, buf)
+		buf = padded
+	}
+	return insts.BytesToUint64(buf)
+}
+func (t timingRegs) EXEC() uint64 { return t.wf.EXEC() }
+func (t timingRegs) VCC() uint64  { return t.wf.VCC() }
+func (t timingRegs) SCC() byte    { return t.wf.SCC() }
+
 type collector struct {
 	mu       sync.Mutex
 	full     bool
@@ -270,10 +296,26 @@ func (c *collector) Func(ctx sim.HookCtx) {
 		}
 		c.state(ev, wf, in)
 		ev.Seq = c.total
-		if in.FormatType == insts.FLAT {
+		if in.FormatType == insts.FLAT && !loadOverwritesAddr(in) {
 			ev.Mem = c.memAccess(wf, in)
 		}
 	}
+}
+
+// loadOverwritesAddr: the destination of a FLAT load covers its own address
+// registers (pointer chasing). The emulation hook runs after the instruction,
+// so the lane addresses can no longer be read back: no address record then
+// (the destination is still compared).
+func loadOverwritesAddr(in *insts.Inst) bool {
+	if in.Opcode >= 24 || in.Dst == nil || in.Addr == nil || in.Dst.Register == nil || in.Addr.Register == nil {
+		return false
+	}
+	if !in.Dst.Register.IsVReg() || !in.Addr.Register.IsVReg() {
+		return false
+	}
+	d0, a0 := in.Dst.Register.RegIndex(), in.Addr.Register.RegIndex()
+	d1, a1 := d0+max(in.Dst.RegCount, 1), a0+max(in.Addr.RegCount, 1)
+	return d0 < a1 && a0 < d1
 }
 
 // memAccess records the lane addresses (and store data) of a FLAT access the
@@ -390,10 +432,10 @@ func (c *collector) startTask(t tracing.Task, unit *cu.ComputeUnit) {
 	}
 	if ev != nil {
 		if len(r.evs) == 1 {
-			ev.Init = initState(wf)
+			ev.Init = initState(timingRegs{wf})
 		}
 		if in.Inst.FormatType == insts.FLAT {
-			ev.Mem = c.memAccessMode(wf, in.Inst, true)
+			ev.Mem = c.memAccessMode(timingRegs{wf}, in.Inst, true)
 		}
 		c.byTask[t.ID] = taskRef{rec: r, idx: len(r.evs) - 1, wf: wf, in: in.Inst}
 	}
@@ -429,7 +471,7 @@ func (c *collector) EndTask(t tracing.Task) {
 	delete(c.byTask, t.ID)
 	ev := ref.rec.evs[ref.idx]
 	if !ev.Done {
-		c.state(ev, ref.wf, ref.in)
+		c.state(ev, timingRegs{ref.wf}, ref.in)
 		if c.journal != nil {
 			fmt.Fprintf(c.journal, "D %s %d\n", ref.rec.key, ref.idx)
 		}
